@@ -138,7 +138,7 @@ def gen_svc_case(rng, big=False):
             mode = rng.choice(["same", "same", "same", "fewer", "more", "responder", "responder-more"])
             prevs.append({"gap": gap, "mode": mode, "qtype": rng.choice([qtype, "QM", "QM", "QM", "QU"]),
                           # the 10 s cache clean-up tick (QuestionHistory.async_expire) may fall between two askers
-                          "expire_after": rng.choice([None, None, 0, 1, 500, 999, 1000])})
+                          "expire_after": rng.choice([None, None, 0, 1, 500, 999, 1000]), "recase": rng.random() < 0.25})
             gap += rng.choice([0, 1, 500, 998, 999, 1000, 1000, 1001, 1500])
         prevs.reverse()
     return {"stream": "svc", "now": now, "recs": recs, "noise": noise, "types": types, "qtype": qtype, "multicast": multicast, "prevs": prevs}
@@ -206,7 +206,8 @@ def run_svc(case, res):
                     known.add(extra)
                     ids_ = ids_ | {(T, extra.alias.lower())}
                 if pv["qtype"] != "QU":
-                    z.question_history.add_question_at_time(DNSQuestion(ty, const._TYPE_PTR, const._CLASS_IN), float(then), known)
+                    z.question_history.add_question_at_time(DNSQuestion(ty.upper() if pv.get("recase") else ty, const._TYPE_PTR, const._CLASS_IN),
+                                                            float(then), known)
                     spec[ty.lower()] = (then, ids_)
         else:
             ask(then, base_of(pv["mode"]), pv["qtype"], False)
@@ -371,7 +372,10 @@ def run_req(case, res):
 def gen_hear_case(rng):
     return {"stream": "hear", "simseed": rng.randint(0, 10**6), "gap": rng.choice([0, 1, 500, 998, 999, 1000, 1001, 3000]),
             "qu": rng.random() < 0.3, "nknown": rng.choice([0, 1, 3]), "extra": rng.random() < 0.4, "registered": rng.choice([True, True, True, True, True, "other", False]),
-            "ours": rng.choice([0, 1, 3]), "cover": rng.random() < 0.45, "tc": rng.random() < 0.35}
+            "ours": rng.choice([0, 1, 3]), "cover": rng.random() < 0.45, "tc": rng.random() < 0.35,
+            # the heard question may spell the type in another case (same question: C20); the engine's 10 s clean-up tick may fall
+            # between hearing and asking
+            "recase": rng.random() < 0.3, "tick": rng.choice([None, None, 0.0, 0.5, 1.0])}
     # "registered": True = authoritative for the type asked; "other" = has services, but of another type; False = no services
 
 
@@ -401,7 +405,7 @@ def run_hear(case, res):
             mine.append(ptr(T, "Mine." + T, 4500, now0 - 1000))
         zc.cache.async_add_records(mine)
         q = DNSOutgoing(const._FLAGS_QR_QUERY)
-        qq = DNSQuestion(T, const._TYPE_PTR, const._CLASS_IN)
+        qq = DNSQuestion(T.upper() if case.get("recase") else T, const._TYPE_PTR, const._CLASS_IN)
         qq.unicast = case["qu"]
         q.add_question(qq)
         theirs = [ptr(T, "Inst%d.%s" % (i, T), 4500, now0) for i in range(case["nknown"])]
@@ -432,7 +436,15 @@ def run_hear(case, res):
                                                      " ".join(C.rec_line(r, created=now0) for r in theirs)),
                        hist_str(zc.question_history))
         out["heard"] = hist_str(zc.question_history)
-        await sim.sleep_ms(case["gap"])
+        if case.get("tick") is not None:
+            g1 = int(case["gap"] * case["tick"])
+            await sim.sleep_ms(g1)
+            pre_t = hist_tokens(zc.question_history)
+            zc.engine._async_cache_cleanup()  # the reaper tick (it re-arms itself; an extra timer chain is harmless here)
+            out["tick"] = ("c13expire %d %s" % (sim.loop.ms, pre_t), hist_str(zc.question_history), "expire")
+            await sim.sleep_ms(case["gap"] - g1)
+        else:
+            await sim.sleep_ms(case["gap"])
         now = sim.loop.ms
         pre_hist, pre_cache = hist_tokens(zc.question_history), cache_tokens(zc.cache)
         outs = B.generate_service_query(zc, float(now), {T}, True, None)
@@ -449,8 +461,8 @@ def run_hear(case, res):
         bad.append(("C13:heard-question-suppression", "after hearing the question %d ms earlier (QU=%s, responder=%s, their known answers %s ours) the browser query was %s"
                     % (case["gap"], case["qu"], case["registered"], "within" if theirs_set <= ours_set else "beyond", "sent" if out["asked"] else "suppressed")))
     # the records of the incoming message carry created = arrival time
-    pairs = [out["svc"], out["hear"]]
-    sig = ("hear", case["gap"], case["qu"], case["registered"], theirs_set <= ours_set, bool(case.get("cover")), bool(case.get("tc")))
+    pairs = [out["svc"], out["hear"]] + ([out["tick"]] if "tick" in out else [])
+    sig = ("hear", case["gap"], case["qu"], case["registered"], theirs_set <= ours_set, bool(case.get("cover")), bool(case.get("tc")), bool(case.get("recase")), case.get("tick"))
     return pairs, bad, sig
 
 
@@ -464,7 +476,9 @@ def gen_loop_case(rng):
     r = rng.random()
     if r < 0.35:
         arrive = {"at": rng.choice([100, 230, 300, 400, 600, 1300, rng.randint(0, timeout)]), "what": rng.choice(["srv", "srv", "srv+txt", "txt", "all"])}
-    return {"stream": "loop", "simseed": rng.randint(0, 10**6), "timeout": timeout, "forced": rng.choice([None, None, None, "QU", "QM"]), "arrive": arrive}
+    tick = rng.choice([None, None, 250, 300, 350, 400, 600]) if arrive is None else None
+    return {"stream": "loop", "simseed": rng.randint(0, 10**6), "timeout": timeout, "forced": rng.choice([None, None, None, "QU", "QM"]), "arrive": arrive,
+            "tick_at": tick}
 
 
 def run_loop(case, res):
@@ -524,10 +538,17 @@ def run_loop(case, res):
 
             import asyncio
 
+            async def reaper():
+                if case.get("tick_at") is not None:
+                    await sim.sleep_ms(case["tick_at"])
+                    zc.engine._async_cache_cleanup()
+
+            rt = asyncio.ensure_future(reaper())
             ft = asyncio.ensure_future(feeder())
             o["result"] = await info.async_request(zc, case["timeout"], question_type=forced)
             o["end"] = sim.loop.ms
             await ft
+            await rt
             o["draws"] = [d[3] for d in sim.draws[n0:]]
         finally:
             cls._generate_request_query, cls.async_wait = og, ow
@@ -571,7 +592,10 @@ def run_loop(case, res):
         for i in range(2, len(queries)):
             gap = queries[i][0] - queries[i - 1][0]
             if gap < 1000:
-                sig = D13_SIG if i == 2 else "C13:lookup-spacing"
+                # D13's signature: the third query is early because *new* questions appeared; a mere repeat of questions already
+                # asked in the second query is not D13
+                new_qs = set(queries[i][2]) - set(queries[i - 1][2])
+                sig = D13_SIG if (i == 2 and new_qs) else "C13:lookup-spacing"
                 bad.append((sig, "lookup queries at +%d and +%d ms: query %d is %d ms after query %d (questions %s)"
                             % (queries[i - 1][0] - start, queries[i][0] - start, i + 1, gap, i, queries[i][2])))
     sig = ("loop", case["timeout"], case["forced"], bool(case["arrive"]) and case["arrive"]["what"], len(queries), len(iters))
